@@ -279,7 +279,7 @@ func genReplayTest(ex *Exec, sp *FnSpec, r *Result) (src string, pkgDir string, 
 		if err != nil {
 			return "", "", err
 		}
-		fmt.Fprintf(&sb, "\tif !%s(%s) {\n\t\tfmt.Println(\"REPLAY-RESULT: precondition-false %s\")\n\t\treturn\n\t}\n", c.SpecFn.Name(), strings.Join(args, ", "), c.SpecFn.Name())
+		fmt.Fprintf(&sb, "\t{\n\t\tpre, evaluated := false, false\n\t\tfunc() {\n\t\t\tdefer func() { recover() }()\n\t\t\tpre = %s(%s)\n\t\t\tevaluated = true\n\t\t}()\n\t\tif !evaluated {\n\t\t\tfmt.Println(\"REPLAY-RESULT: precondition-not-evaluable %s\")\n\t\t\treturn\n\t\t}\n\t\tif !pre {\n\t\t\tfmt.Println(\"REPLAY-RESULT: precondition-false %s\")\n\t\t\treturn\n\t\t}\n\t}\n", c.SpecFn.Name(), strings.Join(args, ", "), c.SpecFn.Name(), c.SpecFn.Name())
 	}
 	// old snapshots
 	for _, p := range fn.Params {
@@ -334,7 +334,7 @@ func genReplayTest(ex *Exec, sp *FnSpec, r *Result) (src string, pkgDir string, 
 			if err != nil {
 				return "", "", err
 			}
-			fmt.Fprintf(&sb, "\tok := false\n\tfunc() {\n\t\tdefer func() { recover() }()\n\t\tok = %s(%s)\n\t}()\n\tfmt.Println(\"REPLAY-RESULT: clause\", ok)\n", c.SpecFn.Name(), strings.Join(args, ", "))
+			fmt.Fprintf(&sb, "\tok, evaluated := false, false\n\tfunc() {\n\t\tdefer func() { recover() }()\n\t\tok = %s(%s)\n\t\tevaluated = true\n\t}()\n\tif !evaluated {\n\t\tfmt.Println(\"REPLAY-RESULT: clause-not-evaluable (ghost state or undefined spec)\")\n\t\treturn\n\t}\n\tfmt.Println(\"REPLAY-RESULT: clause\", ok)\n", c.SpecFn.Name(), strings.Join(args, ", "))
 		}
 	case kind == "lemma":
 		sb.WriteString("\tfmt.Println(\"REPLAY-RESULT: clause\", res0)\n")
